@@ -175,7 +175,7 @@ pub fn run(tier: Tier) -> i32 {
     });
     st = st.merge(sb);
     // postfix chains (projection extent across several postfix operators)
-    let ch = crate::checks::c01::chains(tier.pick(5, 6));
+    let ch = crate::checks::c01::chains(tier.pick(4, 5));
     let sc = par_sweep(ch.chunks(512).map(|c| c.to_vec()).collect(), |chunk: &Vec<String>, st| {
         for s in chunk {
             if rparse::parse(s).is_ok() {
